@@ -907,6 +907,11 @@ class SVal:
         if op in ('==', 'is'):
             if a == b and a[0] in ('param', 'global', 'const'):
                 return TRUE
+            # a function, a display or a freshly constructed object is not None
+            for x, y in ((a, b), (b, a)):
+                if x == NONE and (y[0] in ('lambda', 'list', 'tuple', 'dict', 'set', 'fstr') or
+                                  (y[0] == 'call' and isinstance(y[1], str) and y[1].startswith('new '))):
+                    return FALSE
             if repr(b) < repr(a):
                 a, b = b, a
             if op == 'is' and b != NONE and a != NONE:
@@ -997,12 +1002,24 @@ class SVal:
             bound = [(p, mk_index(x, const(i))) for i, p in enumerate(params)]
         site = self._sites.setdefault(id(e), len(self._sites) + 1) if record else 0
         term = ('call', callee, recv if recv is not None else NONE, tuple(bound), site)
+        # calling a lambda (or one of several, chosen by a condition) is its body with the arguments put in
+        if isinstance(callee, tuple) and callee[0] == 'dyn' and not e.keywords and all(t[0] != 'star' for _, t in bound):
+            actual = [t for _, t in bound]
+
+            def apply(ft):
+                if ft[0] == 'lambda' and len(ft[1]) == len(actual):
+                    return subst_params(ft[2], dict(zip(ft[1], actual)))
+                if ft[0] == 'cond' and any(_has_lambda(x) for x in ft[2:]):
+                    return mk_cond(ft[1], apply(ft[2]), apply(ft[3]))
+                return ('call', ('dyn', ft), recv if recv is not None else NONE, tuple(bound), site)
+            if _has_lambda(callee[1]):
+                term = apply(callee[1])
         # pure builtins on constants fold
         if callee == 'builtins.len' and len(bound) == 1 and bound[0][1][0] in ('tuple', 'list') and not any(
                 isinstance(x, tuple) and x and x[0] in ('when', 'each', 'star') for x in bound[0][1][1]):
             term = const(len(bound[0][1][1]))
         # a small literal table read with .get(key, default) is the chain of conditionals it abbreviates
-        if name == 'get' and recv is not None and recv[0] == 'dict' and 1 <= len(bound) <= 2 and 0 < len(recv[1]) <= 8 \
+        if name == 'get' and recv is not None and recv[0] == 'dict' and 1 <= len(bound) <= 2 and 0 < len(recv[1]) <= 24 \
                 and all(isinstance(x, tuple) and len(x) == 2 and x[0][0] in ('const', 'global') for x in recv[1]) \
                 and not e.keywords and all(t[0] != 'star' for _, t in bound):
             key = bound[0][1]
@@ -1274,6 +1291,21 @@ def show(t, depth=0):
 
 def show_pc(pc):
     return ' and '.join(('' if pol else 'not ') + show(t) for t, pol in pc) or 'always'
+
+
+def _has_lambda(t):
+    return isinstance(t, tuple) and bool(t) and (t[0] == 'lambda' or (t[0] == 'cond' and any(_has_lambda(x) for x in t[2:])))
+
+
+def subst_params(t, mapping):
+    """term t with every ('param', n), n in mapping, replaced"""
+    if isinstance(t, tuple):
+        if len(t) == 2 and t[0] == 'param' and t[1] in mapping:
+            return mapping[t[1]]
+        if t and t[0] == 'const':
+            return t
+        return tuple(subst_params(x, mapping) for x in t)
+    return t
 
 
 def strip_ids(t):
